@@ -834,7 +834,7 @@ theorem SecPair.fields {c : Cls} {tr : List Trans} {D : Bytes} {K : StreamKind} 
 
 theorem getString_obs (b b' : SecBuf) (h : secObs b = secObs b') (x : BitVec 32) : getString b x = getString b' x := by
   simp only [secObs, SecObs.mk.injEq] at h
-  unfold getString
+  rw [LoadTie.getString_hand, LoadTie.getString_hand]
   rw [h.2.2.2.2.2.2.2.2.2.2.2.2.1, h.2.2.2.2.2.2.2.1]
 
 /-! #### pairwise-related lists -/
